@@ -18,7 +18,7 @@ ASSUMPTIONS = ["a watchdog timeout is inconclusive, not a violation",
 CLASSES = gen.HOSTILE_CLASSES
 FLOORS = {
     "quick": dict({"api:get_citations": 20000, "api:resolve_citations": 10000, "api:annotate_citations": 20000,
-                   "calls:ref": 300, "citations": 20000, "component_hostile_docs": 600}, **{"hostile:" + c: 100 for c in CLASSES}),
+                   "calls:ref": 300, "citations": 20000, "component_hostile_docs": 600, "db_strings_with_year": 4000}, **{"hostile:" + c: 100 for c in CLASSES}),
     "thorough": dict({"api:get_citations": 1000000, "api:resolve_citations": 500000,
                       "api:annotate_citations": 1000000, "calls:ref": 10000},
                      **{"hostile:" + c: 5000 for c in CLASSES}),
@@ -34,7 +34,7 @@ PROBES = ["1 U.S. " + "9" * 5000 + ". Id. at 5.", "1 U.S. 5. Id. at " + "9" * 50
 
 
 def plan(tier, seed):
-    return [dict(i=i, n=N[tier], seed=seed * 1000 + i, probes=(i == 0), corpus=(i == 0)) for i in range(SHARDS[tier])]
+    return [dict(i=i, nshards=SHARDS[tier], n=N[tier], seed=seed * 1000 + i, probes=(i == 0), corpus=(i == 0)) for i in range(SHARDS[tier])]
 
 
 def prepare(tier, seed, workdir):
@@ -160,6 +160,18 @@ def run_shard(spec, rec):
     corpus = gen.test_corpus() if spec.get("corpus") else []
     for s in corpus[::3]:
         exercise(gen.mutate(s, rng, rec=rec), rec, False)
+    # every reporter, journal and statute string of the database once, with a year and a pin cite (what
+    # the later stages look up per string - editions, date ranges, courts - differs from string to string)
+    from reporters_db import JOURNALS, LAWS
+    strings = [("r", x) for x in gen.DB.std_all] + [("j", x) for x in sorted(JOURNALS)] + [("l", x) for x in sorted(LAWS)]
+    for n, (kind, x) in enumerate(strings):
+        if n % spec.get("nshards", 8) != spec["i"]:
+            continue
+        year = rng.choice([1999, 1850, 2100, 1701, gen.YEARNOW])
+        text = {"r": f"Foo v. Bar, 1 {x} 5, 7 ({year}). Id. at 8.", "j": f"See 1 {x} 5, 7 ({year}). Id. at 8.",
+                "l": f"See {x} § 5 ({year}); 1 {x} 5 ({year})."}[kind]
+        exercise(text, rec, n % 40 == 0)
+        rec.count("db_strings_with_year")
     for k in range(spec["n"]):
         text = make_text(rng, rec)
         got = exercise(text, rec, k % 10 == 0)
